@@ -141,3 +141,21 @@ PROPS = {
              phases=[{"tag": "sched", "bin": "simcheck", "wrap": [], "share": 0.85, "shrink": 60},
                      {"tag": "tsan-free-running", "variant": "tsan", "bin": "simcheck", "wrap": [], "share": 0.15, "advisory": True, "tiers": ["thorough"], "workers": 4}]),
 }
+
+# ---- additions that apply across families (DESIGN.md section 12: object lifecycle events, relay, aborted calls, environment)
+_LIFE = (" | object lifecycle events: between two operations the decoder / encoder / tracker under test is copy- or move-constructed, "
+         "assigned over a used object, swapped, self-assigned or forked into a shadow that receives the same calls (op k=13; rule life.fork-diverged); "
+         "packets are handed on as copied / moved / assigned-over-a-near-twin objects, re-used long-lived objects, or with payloads completed "
+         "through the mutable getPayload() reference; the models do not change (faults_injected.object-copied-or-moved)")
+for _p in ("C01", "C02", "C03", "C04", "C05", "C06", "C07", "C08", "C09", "C10", "C16", "C17", "C18"):
+    PROPS[_p]["rule"] += _LIFE
+PROPS["C01"]["rule"] += (" | relay: valid packets returned by the receiver (whole or reassembled) are encoded again by a second real Encoder with another frame "
+                         "size and decoded by a second real Decoder; they must come back as the same packets (relay.*; probe relayed-packets)")
+PROPS["C10"]["rule"] += (" | fault: the batch first goes into an encode(begin,end) call aborted by an exception out of the caller's iterator "
+                         "(faults_injected.encode-call-aborted-by-exception), then into the compared call")
+PROPS["C13"]["rule"] += " | one step in six: the content arrives by copy assignment from a sibling object given it (probe content-by-assignment)"
+PROPS["C15"]["rule"] += " | one run in four decodes under a global C++ locale with digit grouping and a decimal comma (faults_injected.hostile-global-locale)"
+PROPS["C19"]["rule"] += (" | cloned start (a third of the shared-workload runs): the workload is begun on the main thread, interrupted between two deliveries, and the "
+                         "threads continue on COPIES of one prototype's decoder / encoders / tracker (probe cloned-start)")
+PROPS["C20"]["rule"] += (" | C20-only inputs: moved-from packets re-used after setPayload, Status updates with generic interface-status payloads shorter than "
+                         "the class header; the tracker's final content is an output")
